@@ -48,6 +48,20 @@ def run_case(ck: Check, case: dict):
     if bool(r.bfs_completed) != completed:
         ck.violation("C08/completed-flag", "completion flag differs from the truth", rep)
         return
+    if case.get("via_file") and gd.kind == "perm":
+        # the same result after BfsResult.save / BfsResult.load: its exports must be the same explicit graph
+        import tempfile
+
+        from cayleypy import BfsResult
+
+        with tempfile.TemporaryDirectory(prefix="cvC08") as td:
+            r.save(os.path.join(td, "r.h5"))
+            st2, r2 = algos.call(BfsResult.load, os.path.join(td, "r.h5"))
+        if st2 != "ok":
+            ck.violation("C08/load-error", "loading the saved result raised: " + r2, rep)
+            return
+        r = r2
+        ck.count("result passed through save/load")
     k = len(r.layer_sizes)
     # a history of earlier exports on the same object (any order, any subset): later exports must not depend on it
     pre_nx = None
@@ -184,10 +198,27 @@ def run_case(ck: Check, case: dict):
         ck.violation("C08/events", "library event during export: " + str(ev[0])[:100], dict(rep, events=[str(e)[:200] for e in ev[:3]]))
 
 
+def parallel_edges_def(rng):
+    """Coset graphs in which one vertex reaches the same target under 100-300 generators (all transpositions of 17..26
+    points acting on a word with one or two marked positions): multiplicities around 128 and 256."""
+    n = rng.choice([17, 18, 18, 24, 26])
+    gens = []
+    for i in range(n):
+        for j in range(i + 1, n):
+            p = list(range(n))
+            p[i], p[j] = j, i
+            gens.append(p)
+    rng.shuffle(gens)
+    central = [0] * n
+    central[rng.randrange(n)] = 1
+    return graphs.GDef("perm", gens, central, tag="parallel-edges")
+
+
 def gen_case(ck):
     rng = ck.rng
     for _ in range(400):
-        gd = graphs.gen_def(rng, mat_share=0.25)
+        r0 = rng.random()
+        gd = parallel_edges_def(rng) if r0 < 0.04 else graphs.deep_directed_def(rng) if r0 < 0.12 else graphs.gen_def(rng, mat_share=0.25)
         layers = gd.brute_layers(cap=300 if not ck.thorough else 3000)
         if layers is None or len(layers) < 2:
             continue
@@ -196,7 +227,7 @@ def gen_case(ck):
         cfg = graphs.gen_cfg(rng, gd)
         pre = [x for x in ["nx_undirected", "nx_directed", "adjacency_matrix", "adjacency_matrix_sparse", "edges_list", "vertex_names", "all_states"] if rng.random() < 0.4]
         rng.shuffle(pre)
-        return {"gd": gd.to_json(), "cfg": cfg, "max_diameter": maxd, "pre": pre}
+        return {"gd": gd.to_json(), "cfg": cfg, "max_diameter": maxd, "pre": pre, "via_file": rng.random() < (0.5 if gd.tag.startswith("deep") else 0.15)}
     raise RuntimeError("no case")
 
 
@@ -214,6 +245,12 @@ def main():
         if ck.enough():
             break
         ck.guard(run_case, ck, gen_case(ck))
+    for _ in range(2 if not ck.thorough else 12):
+        if ck.enough():
+            break
+        gd = parallel_edges_def(ck.rng)
+        ck.guard(run_case, ck, {"gd": gd.to_json(), "cfg": graphs.gen_cfg(ck.rng, gd), "max_diameter": None, "pre": [], "via_file": False})
+        ck.count("parallel-edges graphs")
     ck.assumptions = ["scipy coo_array and networkx are modelled, not verified (compared with the dense matrix / edge list)", "hash injective on the orbit"]
     ck.finish(rule="generated definitions with small orbits (permutation and matrix, inverse-closed or not) x encodings x completed / early-stopped (max_diameter 1..ecc); x a random history of earlier exports on the same result object (any subset, any order); expected edge multiset computed from the Spec distance classes and plain-Python generator action; every export re-read at the end")
 
